@@ -10,24 +10,24 @@ class PyxError(Exception):
 
 TYPE = r'(?:DTYPE_t|double)'
 MATH = {'fabs': 'abs', 'sqrt': 'np.sqrt', 'cos': 'np.cos', 'sin': 'np.sin', 'acos': 'np.arccos', 'atan2': 'np.arctan2', 'fmod': 'np.fmod',
-        'exp': 'np.exp', 'log': 'np.log'}
+        'exp': 'np.exp', 'log': 'np.log', 'pow': 'np.power', 'fmin': 'min'}
 
 
-def find_function(text, name):
+def find_function(text, name, occurrence=0):
+    """header line and (dedented) body of the occurrence-th definition of `name`; definitions inside compile-time IF/ELSE blocks
+    are indented and are found too"""
     lines = text.split('\n')
-    start = None
-    for i, l in enumerate(lines):
-        if re.match(r'^c?p?def\s+(inline\s+)?[\w\[\]:,\s\*]*\b%s\s*\(' % re.escape(name), l):
-            start = i
-            break
-    if start is None:
-        raise PyxError('kernel %s not found' % name)
+    starts = [i for i, l in enumerate(lines) if re.match(r'^\s*c?p?def\s+(inline\s+)?[\w\[\]:,\s\*]*\b%s\s*\(' % re.escape(name), l)]
+    if len(starts) <= occurrence:
+        raise PyxError('kernel %s (occurrence %d) not found' % (name, occurrence))
+    start = starts[occurrence]
+    ind = len(lines[start]) - len(lines[start].lstrip())
     body = []
     for l in lines[start + 1:]:
-        if l.strip() and not l.startswith((' ', '\t')):
+        if l.strip() and len(l) - len(l.lstrip()) <= ind:
             break
-        body.append(l)
-    return lines[start], body
+        body.append(l[ind:] if l.strip() else l)
+    return lines[start].strip(), body
 
 
 def params_of(header):
@@ -47,18 +47,33 @@ def params_of(header):
         if m:
             out.append((m.group(1), 'scalar'))
             continue
+        m = re.match(r'^int\s+(\w+)$', p)
+        if m:
+            out.append((m.group(1), 'scalar'))
+            continue
+        m = re.match(r'^\w+_ptr\s+(\w+)$', p)
+        if m:
+            out.append((m.group(1), 'function'))
+            continue
         raise PyxError('parameter %r' % p)
     return out
 
 
-def kernel_to_python(text, name, returns, consts):
+def kernel_to_python(text, name, returns, consts, occurrence=0, bind=None, thread=None, rename=None):
     """returns: list of python expressions (over the parameters / pointer names) that the generated function returns.
-    consts: module-level constants of the pyx file as python source (e.g. {'PI2': '2*np.pi'})."""
-    header, body = find_function(text, name)
+    consts: module-level constants of the pyx file as python source (e.g. {'PI2': '2*np.pi'}).
+    bind: function-pointer parameter -> name of the kernel it is bound to by the callers (the parameter is dropped).
+    thread: {module-level value: [kernels]}: the value becomes a leading parameter of those kernels and a leading argument of calls to them.
+    rename: name of the generated python function (several specialisations of one kernel)."""
+    header, body = find_function(text, name, occurrence)
     params = params_of(header)
+    bind = bind or {}
+    # a function-pointer parameter that is not bound stays a parameter (the translator turns it into a function binder)
+    params = [(n, k) for n, k in params if not (k == 'function' and n in bind)]
+    lead = [v for v, fs in (thread or {}).items() if name in fs]
     pointers = [n for n, k in params if k == 'pointer']
     single = [p for p in pointers if not re.search(r'\b%s\s*\[\s*[1-9]' % re.escape(p), '\n'.join(body))]
-    out = ['def %s(%s):' % (name, ', '.join(n for n, k in params if n not in single))]
+    out = ['def %s(%s):' % (rename or name, ', '.join(lead + [n for n, k in params if n not in single]))]
     for p in single:
         out.append('    %s = 0' % p)       # a pointer to one double that the kernel writes: becomes a local, returned
     for l in body:
@@ -75,6 +90,11 @@ def kernel_to_python(text, name, returns, consts):
             code = re.sub(r'\b%s\s*\[\s*0\s*\]' % re.escape(p), p, code)
         if '&' in code or '<' in code and re.search(r'<\s*\w+\s*>', code):
             raise PyxError('address-of / cast in %s: %r' % (name, code.strip()))
+        for fp, target in bind.items():
+            code = re.sub(r'(?<![\w.])%s\s*\(' % re.escape(fp), target + '(', code)
+        for v, fs in (thread or {}).items():
+            for f in fs:
+                code = re.sub(r'(?<![\w.])%s\s*\(' % re.escape(f), '%s(%s, ' % (f, v), code)
         for k, v in MATH.items():
             code = re.sub(r'(?<![\w.])%s\s*\(' % k, v + '(', code)
         code = re.sub(r'(?<![\w.])pi\b', 'np.pi', code)
